@@ -1078,3 +1078,71 @@ func init() {
 		}
 	}
 }
+
+const finalizerDriver = `package httpgrpc
+
+import (
+	"context"
+	"net/http"
+	"net/http/httptest"
+	"net/url"
+	"runtime"
+	"testing"
+	"time"
+
+	"google.golang.org/grpc"
+	"google.golang.org/grpc/status"
+	"google.golang.org/protobuf/types/known/emptypb"
+)
+
+// A schedule of the garbage collector, not an input: the caller's last use of the
+// stream is a RecvMsg that blocks (the handler answers after 300 ms) and a collection
+// runs meanwhile. The context never ends and nobody cancels: the call must succeed.
+func TestZZGovcReplay(t *testing.T) {
+	mux := http.NewServeMux()
+	mux.Handle("/svc/S", HandleStream(struct{}{}, "svc", &grpc.StreamDesc{StreamName: "S", ServerStreams: true, Handler: func(srv interface{}, ss grpc.ServerStream) error {
+		var in emptypb.Empty
+		if err := ss.RecvMsg(&in); err != nil {
+			return err
+		}
+		time.Sleep(300 * time.Millisecond)
+		return ss.SendMsg(&emptypb.Empty{})
+	}}, nil))
+	svr := httptest.NewServer(mux)
+	defer svr.Close()
+	u, _ := url.Parse(svr.URL)
+	ch := &Channel{Transport: http.DefaultTransport, BaseURL: u}
+	stop := make(chan struct{})
+	defer close(stop)
+	go func() {
+		for {
+			select {
+			case <-stop:
+				return
+			default:
+				runtime.GC()
+				time.Sleep(time.Millisecond)
+			}
+		}
+	}()
+	for i := 0; i < 3; i++ {
+		cs, err := ch.NewStream(context.Background(), &grpc.StreamDesc{StreamName: "S", ServerStreams: true}, "/svc/S")
+		if err != nil {
+			t.Fatalf("NewStream: %v", err)
+		}
+		cs.SendMsg(&emptypb.Empty{})
+		cs.CloseSend()
+		if err := cs.RecvMsg(&emptypb.Empty{}); err != nil { // last use of cs
+			t.Fatalf("GOVC-REPLAY: VIOLATED run %d: RecvMsg on a live stream whose context never ends returned %v (code %v): the stream's own finalizer cancelled it while the receive was pending", i, err, status.Code(err))
+		}
+	}
+}
+`
+
+func init() {
+	scanReplayDrivers["type:httpgrpc.clientStreamWrapper/kept_alive_during:"] = func(cc *checkCtx, rec *obRecord) map[string]interface{} {
+		res := map[string]interface{}{"attempted": false}
+		res["inputs"] = map[string]interface{}{"scenario": "garbage collections while the caller's last use of the stream, a RecvMsg, is blocked"}
+		return runDriver(cc, modulePath+"/httpgrpc", finalizerDriver, res)
+	}
+}
